@@ -146,6 +146,34 @@ Theorem C01_quadratic_whole_spline_logabsdet_is_log_derivative :
 Proof. intros minw minh bx uw uh H1 H2 H3 H4 H5 H6 H7 H8 x Hx. exact (quadratic_whole_derivative minw minh bx uw uh H1 H2 H3 H4 H5 H6 H7 H8 x Hx). Qed.
 Print Assumptions C01_quadratic_whole_spline_logabsdet_is_log_derivative.
 
+(* ---- the WHOLE piecewise-cubic spline, forward direction, likewise: neighbouring bins share the node derivative, so the spline is
+   differentiable at every interior point of the box, knots included, and the returned log-abs-det is the logarithm of that
+   derivative, for ANY unnormalised widths, heights and boundary derivatives ---- *)
+From NF Require Import Model.SplineCubic Proofs.SplineCubicWhole Proofs.SplineCubicIntegral.
+Theorem C01_cubic_whole_spline_logabsdet_is_log_derivative :
+  forall (minw minh eps thr : R) (bx : @box R) (uw uh : list R) (ul ur : R),
+  uw <> nil -> length uh = length uw ->
+  0 <= minw -> minw * INR (length uw) <= 1 -> 0 <= minh -> minh * INR (length uw) <= 1 ->
+  b_left bx < b_right bx -> b_bottom bx < b_top bx ->
+  forall x, b_left bx < x < b_right bx ->
+    is_derive (CF minw minh eps thr bx uw uh ul ur) x (exp (CFlad minw minh eps thr bx uw uh ul ur x)) /\
+    0 < exp (CFlad minw minh eps thr bx uw uh ul ur x).
+Proof.
+  intros minw minh eps thr bx uw uh ul ur H1 H2 H3 H4 H5 H6 H7 H8 x Hx.
+  exact (cubic_whole_derivative minw minh eps thr bx uw uh ul ur H1 H2 H3 H4 H5 H6 H7 H8 x Hx).
+Qed.
+Print Assumptions C01_cubic_whole_spline_logabsdet_is_log_derivative.
+
+(* ---- the WHOLE piecewise-linear spline: inside every bin (at the knots it has a kink and its log-abs-det jumps) it is
+   differentiable and the returned log-abs-det is the logarithm of that derivative, for ANY unnormalised pdf ---- *)
+From NF Require Import Model.SplineLinear Proofs.SplineLinearWhole Proofs.SplineLinearIntegral.
+Theorem C01_linear_whole_spline_logabsdet_is_log_derivative_off_knots :
+  forall (bx : @box R) (u : list R), u <> nil -> b_left bx < b_right bx -> b_bottom bx < b_top bx ->
+  forall (k : nat) (x : R), Peano.lt k (length u) -> xl bx u k < x < xl bx u (S k) ->
+    is_derive (FL bx u) x (exp (FLlad bx u x)) /\ 0 < exp (FLlad bx u x).
+Proof. intros bx u Hne Hlr Hbt k x Hk Hx. exact (linear_whole_derivative_off_knots bx u Hne Hlr Hbt k x Hk Hx). Qed.
+Print Assumptions C01_linear_whole_spline_logabsdet_is_log_derivative_off_knots.
+
 (* ---- LogTanh (constants and pieces as generated): the logarithmic tails meet the tanh piece at the cut point, have the
    positive slope alpha / |x|, and the returned log-abs-det is the logarithm of that slope; the inverse tails undo them ---- *)
 From NF Require Import Proofs.LogTanhP.
